@@ -5,6 +5,7 @@ pub mod outline;
 pub mod validate;
 pub mod sfnt;
 pub mod summary;
+pub mod layout;
 
 use read_fonts::tables::glyf::Glyph as RfGlyph;
 use read_fonts::tables::variations::{DeltaSetIndexMap, ItemVariationStore};
@@ -142,11 +143,14 @@ impl<'a> Font<'a> {
     }
 
     /// evaluate an ItemVariationStore delta at coords
-    pub fn ivs_delta(ivs: &ItemVariationStore, outer: u16, inner: u16, coords: &[f64]) -> Result<f64, String> {
+    pub fn ivs_delta(ivs: &ItemVariationStore, outer: u16, inner: u16, coords: &[f64]) -> Result<f64, String> { Self::ivs_delta_s(ivs, outer, inner, coords).map(|x| x.0) }
+    /// (delta, sum of the scalars of the regions with a non-zero delta)
+    pub fn ivs_delta_s(ivs: &ItemVariationStore, outer: u16, inner: u16, coords: &[f64]) -> Result<(f64, f64), String> {
         let regions = ivs.variation_region_list().map_err(|e| format!("ivs regions: {e}"))?;
         let data = ivs.item_variation_data().get(outer as usize).ok_or_else(|| format!("ivs: no data {outer}"))?.map_err(|e| format!("ivs data {outer}: {e}"))?;
         let idx = data.region_indexes();
         let mut total = 0.0;
+        let mut ssum = 0.0;
         let all = regions.variation_regions();
         for (k, delta) in data.delta_set(inner).enumerate() {
             let ri = idx.get(k).ok_or("ivs: region index missing")?.get() as usize;
@@ -161,8 +165,9 @@ impl<'a> Font<'a> {
                 scalar *= if v < p { (v - s) / (p - s) } else { (e - v) / (e - p) };
             }
             total += scalar * delta as f64;
+            if delta != 0 { ssum += scalar; }
         }
-        Ok(total)
+        Ok((total, ssum))
     }
 
     pub fn map_index(map: Option<&DeltaSetIndexMap>, gid: u16) -> Result<(u16, u16), String> {
